@@ -175,7 +175,8 @@ Inductive cerr :=
 | EBadImport (s : str)
 | EAmbigousImport (s : str)
 | ESuperLimitReached
-| ETooManyUpvalues.
+| ETooManyUpvalues
+| EBadVariableName (s : str).
 
 Record compiled := {
   p_bytecode : list N;
@@ -652,6 +653,16 @@ Definition write_upvalue (i : N) : M unit := push_instr (ISetUpvalue i).
 Definition ht_entry_hangs {V} (m : list (N * V)) : bool :=
   negb ht_entry_grows && (c_ht_default_cap <=? N.of_nat (length m)).
 
+(* ce07816 (observation O-C10-1): `if name != variable { return Err(self.error(BadVariableName(variable))) }`
+   on the name that `variables.names.entry(from_u32(id)).or_insert_with(..)` hands back - a second name
+   with the same Handle::from_str hash would share the slot of the first.  [global_name_checked] is
+   read from the source (CompilerGen).  Nothing was emitted for this card when ReadVar fails; in the
+   SetGlobalVar arm the opcode byte is already in the buffer - compile fails either way. *)
+Definition name_checked (nm name : str) (id : N) : M N :=
+  fun s => if global_name_checked && negb (str_eqb nm name)
+           then RErr (EBadVariableName name) (Some (cur_loc s))
+           else ROk id s.
+
 (* the `variables.ids.entry(h).or_insert_with(..)`, `variables.names.entry(from_u32(id)).or_insert_with(..)`
    blocks of SetGlobalVar / ReadVar *)
 Definition global_id (name : str) : M N :=
@@ -668,7 +679,7 @@ Definition global_id (name : str) : M N :=
     | Some (id, ids, nv) =>
         let k := handle_from_u32 id in
         match nm_find k (cs_names s) with
-        | Some _ => ROk id (set_vars ids (cs_names s) nv s)
+        | Some nm => name_checked nm name id (set_vars ids (cs_names s) nv s)
         | None =>
             if ht_entry_hangs (cs_names s) then RDiverge
             else ROk id (set_vars ids (nm_insert k name (cs_names s)) nv s)
